@@ -45,6 +45,10 @@ func (g *gateImpl) SetCount(count uint16) error {
 		return ErrGateIntegrity
 	}
 	g.count = count
+	// lowering the count to the arrivals already made opens the gate: wake the waiters
+	if g.arrived == g.count {
+		g.gateCondition.Broadcast()
+	}
 	return nil
 }
 
